@@ -514,6 +514,41 @@ def gen_cases(rng, tier, focus=()):
 # ---------------------------------------------------------------------------
 # running one case
 # ---------------------------------------------------------------------------
+EMPTY_PAIRS = [((0,), (1,)), ((1,), (0,)), ((2, 0), (1, 1)), ((0, 3), (1,)), ((0,), ()), ((), (0,)), ((0,), (0,)),
+               ((1, 0), (3, 1)), ((2, 0), (0,))]
+
+
+def empty_checks(Pm):
+    """empty arrays of polynomials are legal operands: + - * and eval follow NumPy's broadcasting of the leading shapes
+    and give an empty result of the right order (seeded change C20-O: the product of a (0,) and a (1,) array raised)
+    -> list of (case, problem or None)"""
+    out = []
+    for sa, sb in EMPTY_PAIRS:
+        for oa, ob in ((1, 2), (2, 0), (3, 3)):
+            for op in ('add', 'sub', 'mul', 'eval'):
+                case = {'kind': 'empty', 'op': op, 'shapes': [list(sa), list(sb)], 'orders': [oa, ob]}
+                prob = None
+                try:
+                    p = Pm.Polynomial(np.ones(sa + (oa + 1,)))
+                    want = np.broadcast_shapes(sa, sb)
+                    if op == 'eval':
+                        r = p.eval(Pm.Scalar(np.ones(sb)))
+                        got, item = tuple(r.shape), None
+                    else:
+                        q = Pm.Polynomial(np.ones(sb + (ob + 1,)))
+                        r = {'add': lambda: p + q, 'sub': lambda: p - q, 'mul': lambda: p * q}[op]()
+                        got, item = tuple(r.shape), r.values.shape[-1] - 1
+                        worder = oa + ob if op == 'mul' else max(oa, ob)
+                        if item != worder:
+                            prob = 'order %d, expected %d' % (item, worder)
+                    if got != want:
+                        prob = 'shape %s, expected %s' % (got, want)
+                except Exception as e:      # noqa
+                    prob = 'raised %s: %s' % (type(e).__name__, str(e)[:80])
+                out.append((case, prob))
+    return out
+
+
 def run_case(c, Pm, rec=None):
     """(problem or None, detail dict, nontrivial?)"""
     with warnings.catch_warnings():
@@ -1331,6 +1366,11 @@ def run(ctx):
     focus = sorted({b.split('_')[1] for b in broken})
     if focus:
         ctx.log('searching for a concrete failing input in: %s' % focus)
+    for ecase, eprob in empty_checks(Pm):
+        ctx.note_case(ecase, True)
+        ctx.count('family:empty')
+        if eprob:
+            ctx.fail({'kind': 'empty', 'op': ecase['op'], 'problem': eprob.split(':')[0][:40]}, ecase, {'problem': eprob})
     cases = gen_cases(ctx.rng, ctx.tier, focus)                # stage S (+ records for K)
     rec, fails = numeric(ctx, Pm, cases)
     if lib_ok:
@@ -1345,6 +1385,11 @@ def replay(path):
     if 'case' not in d:
         print(json.dumps(d, indent=1)[:4000])
         return 1
+    if d['case'].get('kind') == 'empty':
+        bad = [pr for cs, pr in empty_checks(Pm) if cs == d['case'] and pr]
+        print(d['case'], '->', bad or 'ok')
+        print('property FAILS on this case' if bad else 'property holds on this case')
+        return 1 if bad else 0
     prob, det, _ = run_case(d['case'], Pm)
     print('case      :', json.dumps(d['case'])[:2000])
     for k, v in det.items():
